@@ -59,7 +59,7 @@ def corpus():
     return [
         # known finding peerup-capability-panic: Initiation, then a Peer Up whose received OPEN has a capability of declared length 1 in 2 bytes
         "B 03000000100400020001720001000164;B 03000000840300000000000000000000000000000000000000000000c00002010000fde9000000016abd85ea00076b170000000000000000000000000a0000012b0b11d7ffffffffffffffffffffffffffffffff001d0104006f00000000000000ffffffffffffffffffffffffffffffff0023010400de00000000000006020440010000",
-        # the short-length frame of the design phase (repaired by 525f161): after a Peer Up it must still end in the cleanup
+        # the short-length frame of the design phase (repaired by aa7f1e5): after a Peer Up it must still end in the cleanup
         "B 0300000000",
         "B 030000000604;B 0300000004",
         "E interrupted;E connectionaborted",
@@ -96,7 +96,7 @@ def e2e(V, tier, seed):
 
 def gauge(V, tier, seed):
     """bmp_num_connected_routers as /metrics renders it: 0 before, 1 while the connection is up, 0 after it was lost
-    (repaired by 4bfc4a9; C15-related)."""
+    (repaired by 8a86f45; C15-related)."""
     import subprocess
     p = subprocess.run([V.VH, "bstream-gauge"], stdout=subprocess.PIPE, text=True, timeout=120)
     out = p.stdout.strip()
